@@ -749,14 +749,33 @@ class ImplRun:
         return None
 
     def asked_dup(self, op, pre):
+        """Did the caller itself ask for one atom object in two slots?  Evaluated on the pre-state from object
+        identities only (independent of the Lean model; it is the side condition `DupFreeX` of
+        `DS.Props.C08.no_alias`): an atom handed over with copy=False that is (and stays) a member of the target or
+        is handed over twice; a member of the assigned slice listed twice in the value of a slice assignment; an
+        index array / tuple that selects one member twice."""
         k = op[0]
-        if k in ("append", "insert") and op[-1] == "n":
-            return True
-        if k == "extend" and op[3] == "n":
-            return True
-        if k in ("set", "setsl") and not op[4]:
-            return True
+        nocopy = (k in ("append", "insert") and op[-1] == "n") or (k == "extend" and op[3] == "n") or \
+            (k in ("set", "setsl") and not op[4])
         try:
+            if k in ("append", "insert") and op[-1] == "n":
+                a = self._pre_aref(op[2] if k == "append" else op[3], pre)
+                return any(a is b for b in pre["objs"][op[1]])
+            if k == "extend" and op[3] == "n":
+                vals = [id(a) for a in self._pre_iter(op[2], pre)]
+                mem = set(id(a) for a in pre["objs"][op[1]])
+                return len(set(vals)) != len(vals) or any(v in mem for v in vals)
+            if k == "set" and not op[4]:
+                src = pre["objs"][op[1]]
+                a = self._pre_aref(op[3], pre)
+                pos = op[2] + len(src) if op[2] < 0 else op[2]
+                return any(a is b for j, b in enumerate(src) if j != pos)
+            if k == "setsl" and not op[4]:
+                src = pre["objs"][op[1]]
+                addressed = set(range(len(src))[py_slice(op[2])])
+                stay = set(id(b) for j, b in enumerate(src) if j not in addressed)
+                vals = [id(a) for a in self._pre_iter(op[3], pre)]
+                return len(set(vals)) != len(vals) or any(v in stay for v in vals)
             if k == "setsl" and op[4]:
                 src = pre["objs"][op[1]]
                 keep = set(id(a) for a in src[py_slice(op[2])])
@@ -766,9 +785,14 @@ class ImplRun:
                 src = pre["objs"][op[1]]
                 got = [id(a) for a in (self.expected_selection(src, op[2]) or [])]
                 return len(set(got)) != len(got)
-        except (KeyError, IndexError, ValueError):
-            pass
+        except (KeyError, IndexError, ValueError, TypeError):
+            # the arguments cannot be resolved on the pre-state (the operation itself raises): an explicit
+            # copy=False still counts as asked
+            return nocopy
         return False
+
+    def _pre_aref(self, a, pre):
+        return self.pool[a[1]] if a[0] == "P" else pre["objs"][a[1]][a[2]]
 
     def _pre_iter(self, it, pre):
         if it[0] in ("L", "G"):
@@ -986,12 +1010,37 @@ LEAN_WITNESSES = [
     _T1 + [("set", 0, 9, ("M", 1, 0), False)],
 ]
 
+# DS.Props.C08.witnessExtSliceNoCopy — the history that refutes the no_alias statement recorded up to round 4
+# (`no_alias_statement_plainRemain_false`): `s.__setitem__(slice(None, None, 2), [s[1]], copy=False)` on a 2-atom
+# structure leaves one atom object in both slots.  The caller asked for it (copy=False + an atom that stays a member),
+# so this is expected behaviour; it is replayed on every run to keep the theorem tied to the implementation.
+ALIAS_WITNESS = [("mkstru", 0), ("addnew", 0, 1), ("addnew", 0, 2), ("setsl", 0, (None, None, 2), ("L", [("M", 0, 1)]), False)]
+# DS.Props.C08.goodHistory3 — the non-vacuity witness of `no_alias` (extended-slice assignment with and without
+# copying, pickle protocols 0/1/2, index array, ValueError of a length mismatch, sort, -=, generator value)
+ALIAS_GOOD = [("mkstru", 0), ("addnew", 0, 1), ("addnew", 0, 2), ("addnew", 0, 3), ("addnew", 0, 4), ("mkatom", 5), ("mkatom", 6),
+              ("setsl", 0, (None, None, 2), ("L", [("P", 0), ("M", 0, 0)]), False),
+              ("setsl", 0, (-1, None, -2), ("L", [("M", 0, 1), ("P", 1)]), True),
+              ("pickle", 0, 0), ("pickle", 0, 1), ("pickle", 1, 2), ("get", 0, ("a", [3, 0])),
+              ("setsl", 0, (None, None, 3), ("S", 0), True), ("sort", 0), ("isub", 0, ("L", [("M", 0, 0)])),
+              ("setsl", 2, (1, None, 2), ("G", [("M", 2, 3), ("M", 2, 1)]), True), ("extend", 4, ("T", 4), "d")]
+ALIAS_GOOD_EXPECT = "0:2,5,6:0,1,2:1,1,1:0 1:5,6,1,2:3,4,5,6:1,1,1,1:1 2:5,2,1,6:7,8,9,10:1,1,1,1:2 " \
+                    "3:5,6,1,2:11,12,13,14:1,1,1,1:3 4:2,5,2,5:0,1,15,16:1,1,1,1:0"
+
 
 # directed histories: one per past finding / special argument form (run first on every run)
 def corpus():
     base = [("mkstru", 0), ("addnew", 0, 1), ("addnew", 0, 2), ("addnew", 0, 3)]
     two = base + [("mkstru", 1), ("addnew", 1, 11), ("addnew", 1, 12)]
-    return LEAN_WITNESSES + [
+    return LEAN_WITNESSES + [ALIAS_WITNESS, ALIAS_GOOD] + [
+        # extended-slice assignment (all four sign/offset shapes, with and without copying, list / generator / Structure
+        # values, members of the slice, members outside the slice, free atoms) and protocol-0/1 pickling of the results
+        two + [("setsl", 0, (None, None, -1), ("L", [("M", 0, 2), ("M", 0, 1), ("M", 0, 0)]), False), ("pickle", 0, 0),
+               ("setsl", 0, (-1, -4, -2), ("G", [("M", 1, 0), ("M", 0, 2)]), False), ("pickle", 0, 1),
+               ("setsl", 0, (0, None, 2), ("T", 1), True), ("setsl", 0, (2, None, -2), ("S", 1), False), ("pickle", 0, 0)],
+        two + [("setsl", 0, (None, None, 2), ("L", [("M", 0, 1), ("M", 0, 1)]), True), ("pickle", 0, 1), ("pickle", 2, 0),
+               ("setsl", 0, (None, None, 2), ("L", [("M", 0, 0), ("M", 0, 0)]), True), ("pickle", 0, 0), ("pickle", 0, 1)],
+        two + [("setsl", 0, (5, 9, 2), ("L", []), False), ("setsl", 0, (2, 0, -3), ("L", [("M", 1, 1)]), False),
+               ("setsl", 0, (None, None, 2), ("L", [("M", 0, 1)]), False)],
         # past findings (fixed in the tree): extend with itself, pickling
         base + [("extend", 0, ("S", 0), "d"), ("iadd", 0, ("S", 0)), ("extend", 0, ("GS", 0), "d"), ("extend", 0, ("S", 0), "n")],
         base + [("pickle", 0, p) for p in range(6)] + [("deepcopy", 0)],
@@ -1136,6 +1185,16 @@ def run(ck):
     wit = []
     for k, fails in zip(LEAN_WITNESS_KEYS, oracle_fail[:len(LEAN_WITNESSES)]):
         wit.append({"key": k, "fails_on_implementation": any(f[1] == k for f in fails)})
+    # no_alias_statement_plainRemain_false: the implementation must show the same [a1, a1] as the model
+    i_w = len(LEAN_WITNESSES)
+    last = impl_obs[i_w][-1] if impl_obs[i_w] else ""
+    wit.append({"key": "no_alias_statement_plainRemain_false (witnessExtSliceNoCopy)",
+                "fails_on_implementation": last == "ok 0:2,2:0,0:1,1:0", "observed": last,
+                "verdict": "expected behaviour (copy=False with an atom that stays a member): the recorded side condition "
+                           "was too weak for extended slices, the code is not at fault"})
+    good_last = impl_obs[i_w + 1][-1] if impl_obs[i_w + 1] else ""
+    ck.coverage["no_alias_nonvacuity_history_on_implementation"] = {
+        "history": enc_hist(ALIAS_GOOD), "final_observation": good_last, "as_in_lean_example": good_last == "ok " + ALIAS_GOOD_EXPECT}
     ck.coverage["lean_counterexamples_replayed"] = wit
     for w_ in wit:
         if not w_["fails_on_implementation"]:
@@ -1238,8 +1297,9 @@ def run(ck):
         "refines_list/errors_match are proved for histories whose `-`, `-=`, `remove` steps remove by identity exactly what removal by "
         "payload removes (HistAgree, a Boolean hypothesis on the pre-state of those steps); unconditional for histories without them",
         "lattice_inv needs the side condition Safe only at lattice assignments and non-copying insertions (safe_of_copying proves it for "
-        "every other operation); no_alias_partial does not cover assignment to an extended slice and pickling with protocol 0/1 "
-        "(no_alias_statement), both are exercised differentially",
+        "every other operation); no_alias holds for every operation (extended-slice assignment and pickle protocols 0/1 included) under "
+        "the Boolean side condition DupFreeX (no atom handed over uncopied that stays a member or is listed twice); the statement "
+        "recorded up to round 4 had a weaker side condition and is proved false (no_alias_statement_plainRemain_false, replayed here)",
         "composition / column arrays (xyz, occupancy, U...) are not compared; the payload is a custom attribute copied by Atom.__copy__",
     ]
     if not ok and not ck.violations:
